@@ -244,6 +244,46 @@ func emitModelWrites(w *strings.Builder, fset *token.FileSet, repo string) error
 			})
 		}
 	}
+	// third sweep: who draws from the MODEL's random source (shared by every solution of the model)
+	var randomUses []string
+	for _, e := range entries {
+		n := e.Name()
+		if e.IsDir() || !strings.HasSuffix(n, ".go") || strings.HasSuffix(n, "_test.go") || strings.HasPrefix(n, "verif_") {
+			continue
+		}
+		file, err := parser.ParseFile(fset, filepath.Join(repo, n), nil, 0)
+		if err != nil || file.Name.Name != "nextroute" {
+			continue
+		}
+		for _, d := range file.Decls {
+			fn, ok := d.(*ast.FuncDecl)
+			if !ok || fn.Body == nil {
+				continue
+			}
+			_, typ := recvTypeName(fn)
+			seen := false
+			ast.Inspect(fn.Body, func(x ast.Node) bool {
+				c, ok := x.(*ast.CallExpr)
+				if !ok || seen {
+					return true
+				}
+				sel, ok := c.Fun.(*ast.SelectorExpr)
+				if !ok || sel.Sel.Name != "Random" || len(c.Args) != 0 {
+					return true
+				}
+				recvText := strings.ToLower(exprName(sel.X))
+				if strings.HasSuffix(recvText, "model") || strings.HasSuffix(recvText, "model()") || recvText == "m" {
+					randomUses = append(randomUses, fmt.Sprintf("(%s, %s)", q(typ), q(fn.Name.Name)))
+					seen = true
+				}
+				return true
+			})
+		}
+	}
+	sort.Strings(randomUses)
+	defer func() {
+		fmt.Fprintf(w, "(* receiver type, function: call sites of Random() on the MODEL - one source shared by all solutions of the model *)\nDefinition model_random_uses : list (string * string) :=\n  %s.\n\n", list(randomUses))
+	}()
 	sort.Strings(reads)
 	defer func() {
 		fmt.Fprintf(w, "(* receiver type, method, field read, guard - every read of a field that a method outside the builder families writes *)\nDefinition model_field_reads : list (string * string * string * string) :=\n  %s.\n\n", list(reads))
